@@ -172,4 +172,258 @@ theorem next_spec (data : Bytes) (fuel : Nat) (rd : Reader) (h : RInv rd data)
           simp only [NextPost, Reader.bufferError, Reader.position]
           exact ⟨trivial, hpos', trivial⟩
 
+/-! ### the fuel-free lexer run -/
+
+theorem lexLoop_lexes (fuel : Nat) (d : Bytes) (hf : d.length / 2 < fuel) :
+    Lexes d (lexLoop fuel d).1 (lexLoop fuel d).2.1 (lexLoop fuel d).2.2 := by
+  induction fuel generalizing d with
+  | zero => omega
+  | succ fuel ih =>
+    unfold lexLoop
+    cases hrt : readToken d with
+    | ok v =>
+      obtain ⟨t, r⟩ := v
+      obtain ⟨pre, hpre, hlen⟩ := readToken_consumes _ _ _ hrt
+      have hr : r.length / 2 < fuel := by
+        have : d.length = pre.length + r.length := by rw [hpre]; simp
+        omega
+      exact Lexes.tok hrt (ih r hr)
+    | error e =>
+      cases e with
+      | eof =>
+        simp only
+        by_cases hd : d.isEmpty = true
+        · rw [if_pos hd]
+          have : d = [] := by simpa using hd
+          subst this
+          exact Lexes.done
+        · rw [if_neg hd]
+          exact Lexes.eof hrt (by simpa using hd)
+      | invalidRgb => exact Lexes.rgb hrt
+
+theorem lexAll_lexes (d : Bytes) : Lexes d (lexAll d).1 (lexAll d).2.1 (lexAll d).2.2 :=
+  lexLoop_lexes _ d (by omega)
+
+theorem Lexes.det {d : Bytes} {ts ts' : List Token} {term term' : Terminal} {left left' : Bytes}
+    (h : Lexes d ts term left) (h' : Lexes d ts' term' left') : ts = ts' ∧ term = term' ∧ left = left' := by
+  induction h generalizing ts' term' left' with
+  | tok hrt _ ih =>
+    cases h' with
+    | tok hrt' hl' =>
+      rw [hrt] at hrt'
+      simp only [Except.ok.injEq, Prod.mk.injEq] at hrt'
+      obtain ⟨rfl, rfl⟩ := hrt'
+      obtain ⟨a, b, c⟩ := ih hl'
+      exact ⟨by rw [a], b, c⟩
+    | done => simp [readToken_nil] at hrt
+    | eof hrt' _ => rw [hrt] at hrt'; simp at hrt'
+    | rgb hrt' => rw [hrt] at hrt'; simp at hrt'
+  | done =>
+    cases h' with
+    | tok hrt' _ => simp [readToken_nil] at hrt'
+    | done => exact ⟨rfl, rfl, rfl⟩
+    | eof _ hne => exact absurd rfl hne
+    | rgb hrt' => simp [readToken_nil] at hrt'
+  | eof hrt hne =>
+    cases h' with
+    | tok hrt' _ => rw [hrt] at hrt'; simp at hrt'
+    | done => exact absurd rfl hne
+    | eof _ _ => exact ⟨rfl, rfl, rfl⟩
+    | rgb hrt' => rw [hrt] at hrt'; simp at hrt'
+  | rgb hrt =>
+    cases h' with
+    | tok hrt' _ => rw [hrt] at hrt'; simp at hrt'
+    | done => simp [readToken_nil] at hrt
+    | eof hrt' _ => rw [hrt] at hrt'; simp at hrt'
+    | rgb _ => exact ⟨rfl, rfl, rfl⟩
+
+/-! ### the call sequence `next, next, …` (with faults): C20 -/
+
+theorem fits_tail {cap : Nat} {d r : Bytes} {t : Token} (h : Fits cap d) (hrt : readToken d = .ok (t, r)) :
+    Fits cap r := by
+  cases h with
+  | mk _ _ tail => exact tail t r hrt
+
+theorem fits_head {cap : Nat} {d : Bytes} (h : Fits cap d) : FitsAt cap d := by
+  cases h with
+  | mk _ head _ => exact head
+
+/-- every prefix of the call sequence agrees with the slice lexer; the invariant (hence
+`position ≤ delivered`) holds after every call -/
+theorem calls_agree (data : Bytes) (n : Nat) (rd : Reader) (h : RInv rd data)
+    (hfit : rd.buf.cap = 0 ∨ Fits rd.buf.cap (rd.remaining data)) :
+    Agrees (rd.remaining data) (Reader.calls n rd).1 ∧ RInv (Reader.calls n rd).2 data ∧
+      (Reader.calls n rd).2.buf.cap = rd.buf.cap := by
+  induction n generalizing rd with
+  | zero => exact ⟨trivial, h, rfl⟩
+  | succ n ih =>
+    have hfit1 : rd.buf.cap = 0 ∨ FitsAt rd.buf.cap (rd.remaining data) := by
+      rcases hfit with h0 | hf
+      · exact Or.inl h0
+      · exact Or.inr (fits_head hf)
+    obtain ⟨i1, i2, i3⟩ := next_spec data rd.fuelFor rd h hfit1 (by simp [Reader.fuelFor])
+    unfold Reader.calls
+    revert i1 i2 i3
+    generalize Reader.next rd.fuelFor rd = out
+    obtain ⟨res, rd'⟩ := out
+    intro i1 i2 i3
+    simp only at i1 i2 i3
+    cases res with
+    | ok o =>
+      cases o with
+      | some t =>
+        simp only [NextPost] at i3
+        obtain ⟨r, hr1, hr2⟩ := i3
+        have hfit' : rd'.buf.cap = 0 ∨ Fits rd'.buf.cap (rd'.remaining data) := by
+          rw [i2, hr2]
+          rcases hfit with h0 | hf
+          · exact Or.inl h0
+          · exact Or.inr (fits_tail hf hr1)
+        obtain ⟨j1, j2, j3⟩ := ih rd' i1 hfit'
+        simp only
+        refine ⟨?_, j2, by rw [j3, i2]⟩
+        simp only [Agrees]
+        exact ⟨r, hr1, by rw [← hr2]; exact j1⟩
+      | none =>
+        simp only [NextPost] at i3
+        obtain ⟨hr1, _, hr3⟩ := i3
+        have hrem : rd'.remaining data = rd.remaining data := by simp only [Reader.remaining, hr3]
+        have hfit' : rd'.buf.cap = 0 ∨ Fits rd'.buf.cap (rd'.remaining data) := by
+          rw [i2, hrem]; exact hfit
+        obtain ⟨j1, j2, j3⟩ := ih rd' i1 hfit'
+        simp only
+        refine ⟨?_, j2, by rw [j3, i2]⟩
+        simp only [Agrees]
+        exact ⟨hr1, by rw [← hrem]; exact j1⟩
+    | error e =>
+      simp only [NextPost] at i3
+      obtain ⟨_, hp, hk⟩ := i3
+      have hrem : rd'.remaining data = rd.remaining data := by simp only [Reader.remaining, hp]
+      have hfit' : rd'.buf.cap = 0 ∨ Fits rd'.buf.cap (rd'.remaining data) := by
+        rw [i2, hrem]; exact hfit
+      obtain ⟨j1, j2, j3⟩ := ih rd' i1 hfit'
+      simp only
+      refine ⟨?_, j2, by rw [j3, i2]⟩
+      rw [hrem] at j1
+      obtain ⟨pos, kind⟩ := e
+      cases kind with
+      | lexer le =>
+        cases le with
+        | eof => simp only at hk; simp only [Agrees]; exact ⟨hk.1, hk.2.1, j1⟩
+        | invalidRgb => simp only at hk; simp only [Agrees]; exact ⟨hk, j1⟩
+      | read => simp only [Agrees]; exact j1
+      | bufferFull => simp only at hk
+      | ub => simp only at hk
+      | fuel => simp only at hk
+
+/-- a log that agrees with the lexer returns, in order, a prefix of the lexer's tokens; a
+clean end or a lexer error is reported only after all of them, and is the lexer's own
+terminal outcome -/
+theorem agrees_prefix {d : Bytes} {cs : List Call} {ts : List Token} {term : Terminal} {left : Bytes}
+    (ha : Agrees d cs) (hl : Lexes d ts term left) :
+    callToks cs <+: ts ∧
+    (.done ∈ cs → callToks cs = ts ∧ term = .done) ∧
+    (∀ e, .err (.lexer e) ∈ cs → callToks cs = ts ∧ term = .err e) := by
+  induction cs generalizing d ts with
+  | nil => exact ⟨List.nil_prefix, by simp, by simp⟩
+  | cons c cs ih =>
+    cases c with
+    | tok t =>
+      simp only [Agrees] at ha
+      obtain ⟨r, hrt, har⟩ := ha
+      cases hl with
+      | tok hrt' hl' =>
+        rw [hrt] at hrt'
+        simp only [Except.ok.injEq, Prod.mk.injEq] at hrt'
+        obtain ⟨rfl, rfl⟩ := hrt'
+        obtain ⟨k1, k2, k3⟩ := ih har hl'
+        refine ⟨by simpa [callToks] using k1, ?_, ?_⟩
+        · intro hm
+          simp only [List.mem_cons, reduceCtorEq, false_or] at hm
+          obtain ⟨a, b⟩ := k2 hm
+          exact ⟨by simp [callToks, a], b⟩
+        · intro e hm
+          simp only [List.mem_cons, reduceCtorEq, false_or] at hm
+          obtain ⟨a, b⟩ := k3 e hm
+          exact ⟨by simp [callToks, a], b⟩
+      | done => simp [readToken_nil] at hrt
+      | eof hrt' _ => rw [hrt] at hrt'; simp at hrt'
+      | rgb hrt' => rw [hrt] at hrt'; simp at hrt'
+    | done =>
+      simp only [Agrees] at ha
+      obtain ⟨hd, har⟩ := ha
+      subst hd
+      obtain ⟨k1, k2, k3⟩ := ih har hl
+      have hts : ts = [] ∧ term = .done := by
+        cases hl with
+        | tok hrt' _ => simp [readToken_nil] at hrt'
+        | done => exact ⟨rfl, rfl⟩
+        | eof _ hne => exact absurd rfl hne
+        | rgb hrt' => simp [readToken_nil] at hrt'
+      obtain ⟨rfl, rfl⟩ := hts
+      have hnil : callToks cs = [] := by simpa using k1
+      refine ⟨by simpa [callToks] using k1, fun _ => ⟨by simp [callToks, hnil], rfl⟩, ?_⟩
+      intro e hm
+      simp only [List.mem_cons, reduceCtorEq, false_or] at hm
+      exact ⟨by simp [callToks, hnil], (k3 e hm).2⟩
+    | err k =>
+      cases k with
+      | lexer le =>
+        cases le with
+        | eof =>
+          simp only [Agrees] at ha
+          obtain ⟨hrt, hne, har⟩ := ha
+          obtain ⟨k1, k2, k3⟩ := ih har hl
+          have hts : ts = [] ∧ term = .err .eof := by
+            cases hl with
+            | tok hrt' _ => rw [hrt] at hrt'; simp at hrt'
+            | done => exact absurd rfl hne
+            | eof _ _ => exact ⟨rfl, rfl⟩
+            | rgb hrt' => rw [hrt] at hrt'; simp at hrt'
+          obtain ⟨rfl, rfl⟩ := hts
+          have hnil : callToks cs = [] := by simpa using k1
+          refine ⟨by simpa [callToks] using k1, ?_, ?_⟩
+          · intro hm
+            simp only [List.mem_cons, reduceCtorEq, false_or] at hm
+            exact ⟨by simp [callToks, hnil], (k2 hm).2⟩
+          · intro e hm
+            simp only [List.mem_cons, Call.err.injEq, RErrKind.lexer.injEq] at hm
+            rcases hm with hm | hm
+            · exact ⟨by simp [callToks, hnil], by rw [← hm]⟩
+            · exact ⟨by simp [callToks, hnil], (k3 e hm).2⟩
+        | invalidRgb =>
+          simp only [Agrees] at ha
+          obtain ⟨hrt, har⟩ := ha
+          obtain ⟨k1, k2, k3⟩ := ih har hl
+          have hts : ts = [] ∧ term = .err .invalidRgb := by
+            cases hl with
+            | tok hrt' _ => rw [hrt] at hrt'; simp at hrt'
+            | done => simp [readToken_nil] at hrt
+            | eof hrt' _ => rw [hrt] at hrt'; simp at hrt'
+            | rgb _ => exact ⟨rfl, rfl⟩
+          obtain ⟨rfl, rfl⟩ := hts
+          have hnil : callToks cs = [] := by simpa using k1
+          refine ⟨by simpa [callToks] using k1, ?_, ?_⟩
+          · intro hm
+            simp only [List.mem_cons, reduceCtorEq, false_or] at hm
+            exact ⟨by simp [callToks, hnil], (k2 hm).2⟩
+          · intro e hm
+            simp only [List.mem_cons, Call.err.injEq, RErrKind.lexer.injEq] at hm
+            rcases hm with hm | hm
+            · exact ⟨by simp [callToks, hnil], by rw [← hm]⟩
+            · exact ⟨by simp [callToks, hnil], (k3 e hm).2⟩
+      | read =>
+        simp only [Agrees] at ha
+        obtain ⟨k1, k2, k3⟩ := ih ha hl
+        refine ⟨by simpa [callToks] using k1, ?_, ?_⟩
+        · intro hm
+          simp only [List.mem_cons, reduceCtorEq, false_or] at hm
+          simpa [callToks] using k2 hm
+        · intro e hm
+          simp only [List.mem_cons, Call.err.injEq, reduceCtorEq, false_or] at hm
+          simpa [callToks] using k3 e hm
+      | bufferFull => simp [Agrees] at ha
+      | ub => simp [Agrees] at ha
+      | fuel => simp [Agrees] at ha
+
 end Jomini.BinReader
